@@ -309,6 +309,67 @@ fn sponge_chain<B: Backend>(name: &'static str, packing: TablePacking) -> Result
     finish::<B>(name, b, Inputs { public, private: vec![], siblings: vec![] }, packing)
 }
 
+/// Sponge chain with PARTIAL absorbs (overwrite mode): a `new_start` row with 4 CTL inputs, then
+/// a chained row that feeds rate limb 0 only (limb 1 and the capacity are inherited), then a
+/// chained row that feeds rate limb 1 only, exposing its rate.
+fn sponge_partial<B: Backend>(name: &'static str, packing: TablePacking) -> Result<Box<dyn Case>, String> {
+    let cfg = B::poseidon_config().ok_or("backend has no permutation")?;
+    let d = B::D;
+    let mut b = B::new_builder();
+    let ins: Vec<ExprId> = (0..4).map(|_| b.public_input()).collect();
+    let x1 = b.public_input();
+    let x2 = b.public_input();
+    let e0 = b.public_input();
+    let e1 = b.public_input();
+    let mut st = [B::BF::ZERO; 16];
+    for (i, s) in st.iter_mut().enumerate() {
+        *s = B::BF::from_u64(5 + 3 * i as u64);
+    }
+    let mut public = limbs_of::<B>(&st);
+    let fed: [Vec<B::BF>; 2] = [
+        (0..d).map(|i| B::BF::from_u64(101 + i as u64)).collect(),
+        (0..d).map(|i| B::BF::from_u64(211 + 2 * i as u64)).collect(),
+    ];
+    public.push(B::EF::from_basis_coefficients_slice(&fed[0]).unwrap());
+    public.push(B::EF::from_basis_coefficients_slice(&fed[1]).unwrap());
+    for row in 0..3 {
+        let last = row == 2;
+        let inputs = match row {
+            0 => ins.iter().map(|x| Some(*x)).collect(),
+            1 => vec![Some(x1), None, None, None],
+            _ => vec![None, Some(x2), None, None],
+        };
+        // overwrite-mode absorb: the fed limb replaces the inherited one
+        if row == 1 {
+            st[..d].copy_from_slice(&fed[0]);
+        } else if row == 2 {
+            st[d..2 * d].copy_from_slice(&fed[1]);
+        }
+        let (_id, outs) = b
+            .add_poseidon2_perm(&Poseidon2PermCall {
+                config: cfg,
+                new_start: row == 0,
+                merkle_path: false,
+                mmcs_bit: None,
+                mmcs_bit2: None,
+                inputs,
+                out_ctl: vec![last, last],
+                return_all_outputs: false,
+                mmcs_index_sum: None,
+            })
+            .map_err(|e| format!("{e:?}"))?;
+        st = B::perm16(st);
+        if last {
+            b.connect(outs[0].ok_or("out0")?, e0);
+            b.connect(outs[1].ok_or("out1")?, e1);
+        }
+    }
+    let o = limbs_of::<B>(&st);
+    public.push(o[0]);
+    public.push(o[1]);
+    finish::<B>(name, b, Inputs { public, private: vec![], siblings: vec![] }, packing)
+}
+
 /// Arity-2 Merkle path of three rows: leaf row (4 CTL inputs, direction bit 0), then two
 /// chained rows whose sibling comes from private data, direction bits 1 and 0, the index
 /// accumulator exposed on the last row, the root connected to publics.
@@ -533,11 +594,13 @@ pub fn catalogue() -> Vec<Spec> {
         spec!("kb5-horner", KbD5, "quintic trinomial Horner chain", |n| horner::<KbD5>(n, TablePacking::default())),
         spec!("kb5-recompose", KbD5, "recompose + recompose/coeff tables; D=5", |n| recompose::<KbD5>(n, TablePacking::default())),
         spec!("kb5-challenger-base", KbD5, "D=1 challenger pattern in a D=5 circuit: absorb_len tag, chained capacity, recompose/coeff as creator of observed coefficients, sample_ext", |n| challenger_base::<KbD5>(n, TablePacking::default())),
+        spec!("kb4-sponge-partial", KbD4, "KoalaBear D4 sponge rows with partial absorbs (one rate limb fed, the other inherited)", |n| sponge_partial::<KbD4>(n, TablePacking::default())),
+        spec!("bb4-sponge-partial", BbD4, "BabyBear D4 sponge rows with partial absorbs", |n| sponge_partial::<BbD4>(n, TablePacking::default())),
         spec!("kb4-sponge-chain", KbD4, "KoalaBear D4 sponge rows chained inside the table", |n| sponge_chain::<KbD4>(n, TablePacking::default())),
         spec!("kb5-sponge-d1", KbD5, "D=1 Poseidon2 table in a D=5 circuit: sponge new_start + chained row", |n| sponge_base::<KbD5>(n, TablePacking::default())),
     ]
 }
 
 /// Circuits of the quick tier, cheapest first (the budget cuts from the end).
-pub const QUICK: [&str; 9] =
-    ["bb1-arith", "bb1-alias", "bb1-horner", "bb1-horner-k4", "bb1-horner7-k4", "bb4-recompose", "bb4-challenger", "bb1-bits", "bb4-merkle"];
+pub const QUICK: [&str; 10] =
+    ["bb1-arith", "bb1-alias", "bb1-horner", "bb1-horner-k4", "bb1-horner7-k4", "bb4-recompose", "bb4-challenger", "kb4-sponge-partial", "bb1-bits", "bb4-merkle"];
